@@ -1,5 +1,7 @@
 from __future__ import annotations
 
+import json
+
 import ast
 from typing import TYPE_CHECKING
 
@@ -299,19 +301,19 @@ def make_file_ir_serialiser(converter: Converter):
                 symbol.id: {
                     "gets": sorted(
                         converter.unstructure(file_ir._file_ir[symbol]["gets"]),
-                        key=lambda s: s["name"],
+                        key=lambda s: (s["name"], json.dumps(s, sort_keys=True)),
                     ),
                     "sets": sorted(
                         converter.unstructure(file_ir._file_ir[symbol]["sets"]),
-                        key=lambda s: s["name"],
+                        key=lambda s: (s["name"], json.dumps(s, sort_keys=True)),
                     ),
                     "dels": sorted(
                         converter.unstructure(file_ir._file_ir[symbol]["dels"]),
-                        key=lambda s: s["name"],
+                        key=lambda s: (s["name"], json.dumps(s, sort_keys=True)),
                     ),
                     "calls": sorted(
                         converter.unstructure(file_ir._file_ir[symbol]["calls"]),
-                        key=lambda s: s["name"],
+                        key=lambda s: (s["name"], json.dumps(s, sort_keys=True)),
                     ),
                 }
                 for symbol in sorted(file_ir._file_ir.keys())
